@@ -507,3 +507,14 @@ Proof.
   rewrite with_pc_pf. rewrite Hcs. unfold finish.
   pose proof (push32_fault _ _ _ E) as Hf1. cbn [fault set_opc with_pc set_pc]. rewrite Hf1, Hf. reflexivity.
 Qed.
+
+(* ---- every two-byte encoding of a listed unimplemented instruction is rejected: the step returns an error ---- *)
+Theorem step_unimplemented_proof s w w1 w2 w3 w4 :
+  bus_bytes_ok s -> pc s mod 2 = 0 -> 0 <= pc s -> pc s + 2 < 4294967296 ->
+  mem_read SW s (pc s) = Some w ->
+  decode_ref w w1 w2 w3 w4 = Some (IUnimplemented, 2) ->
+  step s = Err.
+Proof.
+  intros Hb Hev H0 H1 Hw Hd.
+  start_step Hb Hw Hd; reflexivity.
+Qed.
